@@ -3,6 +3,7 @@ update+refresh, refresh, advance, start, stop} run on real threads under the det
 (dsched); every execution is recorded (calls, hook phases, writes, recorded copy) and judged by TLC
 (Trace_ConsoleConc).  The fine-grain model ConsoleConc.tla is model-checked in both the intended
 (atomic print) and the faithful configuration."""
+import os
 import re
 
 from engine import tlc, dsched, instrument
@@ -156,6 +157,7 @@ def run_program(prog, strategy, trace=False, tick_budget=2):
         elif ev[1] == "hook":
             events.append(dict(e="hook", t=ev[0], h=ev[2], ops=[]))
     return dict(calls=calls, events=events, rec=rec_labels, live=live_on, finalframe=final_frame, deadlock=bool(s.deadlock),
+                startstop=bool(prog.get("startstop")),
                 exc=exc, choices=list(s.choices), steps=s.steps, deadlock_info=repr(s.deadlock) if s.deadlock else "")
 
 
@@ -164,6 +166,7 @@ NTHREADS = [2, 2, 3, 4]
 
 def random_program(rng, display):
     nthreads = rng.choice(NTHREADS)
+    startstop = rng.random() < (1.0 if os.environ.get("VERIF_C11_STARTSTOP") else 0.25)       # some programs stop / start the display from worker threads
     pid = [0]
     fv = [0]
 
@@ -175,6 +178,8 @@ def random_program(rng, display):
                 kinds += ["update", "update", "refresh"]
             elif display == "progress":
                 kinds += ["advance", "refresh", "refresh"]
+            if display != "none" and startstop:
+                kinds += ["stop", "start", "stop"]
             k = rng.choice(kinds)
             if k in ("print", "capture"):
                 pid[0] += 1
@@ -193,7 +198,9 @@ def random_program(rng, display):
             else:
                 ops.append(dict(k=k))
         return ops
-    return dict(display=display, auto_refresh=rng.random() < 0.3 and display != "none", threads=[ops_for() for _ in range(nthreads)])
+    threads = [ops_for() for _ in range(nthreads)]
+    return dict(display=display, auto_refresh=rng.random() < 0.3 and display != "none", threads=threads,
+                startstop=any(o["k"] in ("start", "stop") for ops in threads for o in ops))
 
 
 def run(chk: Check):
@@ -263,7 +270,7 @@ def run(chk: Check):
         if key not in seen:
             seen.add(key)
             uniq.append((payload, rec))
-    recs = [dict(calls=r["calls"], events=r["events"], rec=r["rec"], live=r["live"], finalframe=r["finalframe"], deadlock=r["deadlock"], exc=r["exc"])
+    recs = [dict(calls=r["calls"], events=r["events"], rec=r["rec"], live=r["live"], finalframe=r["finalframe"], deadlock=r["deadlock"], exc=r["exc"], startstop=r.get("startstop", False))
             for _, r in uniq]
     verdicts, st = tlc.judge("Trace_ConsoleConc", recs, chunk_min=10)
     chk.add_tlc(st, "M3")
